@@ -21,9 +21,11 @@
                                    another one: written with "/" in front and read back as an absolute
                                    path -- known finding D6 (uriAddBaseUri("s:a", ".//b"));
        [lone_empty_hostless u]     no host, the path is one empty segment: written like no segment
-                                   at all (the shape of the repaired D6a/D6b; uriRemoveBaseUri in
-                                   domain-root mode still produces "/" this way, see
-                                   C11_text_lone_empty_refuted);
+                                   at all (the shape of the repaired D6a/D6b).  uriRemoveBaseUri in
+                                   domain-root mode produced "/" this way; it now calls
+                                   uriFixEmptyTrailSegment (C11_text_lone_empty_repaired), and NO
+                                   history of library calls reaches this shape any more
+                                   (C11_reachable_no_lone_empty): only hand-built objects have it;
        [ip4_name u]                a registered name whose text is a dotted quad: written like the
                                    IPv4 address, whose four octets the comparison sees
                                    (uriNormalizeSyntax of "//%31.2.3.4", DESIGN.md 0.5 item 8).
@@ -31,21 +33,26 @@
      equal to every parsed object with its text                                   C11_text_faithful_exact
      and a non-faithful one is unequal to the object parsed from its own text     C11_not_faithful_unequal_reread
    * parsed objects are [text_faithful]                                           C11_parsed_text_faithful
+   * reachable objects are never [lone_empty_hostless] (no side condition)        C11_reachable_no_lone_empty
+     so for them two shapes are excluded, and exactly these two                   C11_equal_iff_same_text_reachable_partial2,
+                                                                                  C11_reachable_faithful_exact
 
    WHY "_partial".  The property says "for URIs the library produced" without exception.  The two
    theorems so named carry [text_faithful u = true] and [text_faithful v = true]; by
-   C11_text_faithful_exact nothing weaker will do, and the three `_refuted` examples below are objects
-   the library model produces (from parsed texts, by uriAddBaseUri / uriRemoveBaseUri /
-   uriNormalizeSyntax) that violate the clause: same text as a parsed object, not equal to it.
-   What is missing for the full statement is therefore not a proof but a change of the library (or of
-   the property): D6 is a known finding; the other two witnesses are of the same kind and are to be
-   replayed on the implementation. *)
+   C11_text_faithful_exact nothing weaker will do (for reachable objects: C11_reachable_faithful_exact,
+   with the two shapes that are left), and the two `_refuted` examples below that start from parsed
+   texts are objects the library model produces (by uriAddBaseUri / uriNormalizeSyntax) that violate
+   the clause: same text as a parsed object, not equal to it.  What is missing for the full statement
+   is therefore not a proof but a change of the library (or of the property): D6 is a known finding;
+   the [ip4_name] witness is of the same kind and is to be replayed on the implementation.  The third
+   witness of earlier versions (uriRemoveBaseUri in domain-root mode, "lone empty segment") was such a
+   change: it is repaired in the C code and is now a positive example. *)
 From Coq Require Import List NArith Bool String.
 From UP Require Import Base.Chars Model.Uri Model.Compare Model.Parse Model.Recompose Model.Resolve
   Model.Shorten Model.Normalize Model.History
   Spec.Identity Spec.NormalWf Spec.Reread Spec.Recompose
   Proofs.RereadWfb Proofs.RereadAll Proofs.CompareText.
-From UP Require Proofs.ResolveProofs.
+From UP Require Proofs.ResolveProofs Proofs.ShortenProofs.
 Import ListNotations.
 Local Open Scope N_scope.
 
@@ -126,6 +133,41 @@ Theorem C11_equal_iff_same_text_reachable_partial : forall ops ops' i j u v,
 Proof. exact equal_iff_same_text_reachable. Qed.
 Print Assumptions C11_equal_iff_same_text_reachable_partial.
 
+(* no reachable object is host-less with the single empty segment as its path -- any history, no side
+   condition: uriRemoveBaseUri was the one operation that made such an object from operands without
+   that shape *)
+Theorem C11_reachable_no_lone_empty : forall ops i u,
+  run empty_store ops i = Some u -> lone_empty_hostless u = false.
+Proof. exact history_no_lone_empty. Qed.
+Print Assumptions C11_reachable_no_lone_empty.
+
+(* the operation itself: the reference has the shape only as a copy of a source that has it *)
+Theorem C11_remove_base_no_lone_empty : forall domain_root src base, lone_empty_hostless src = false ->
+  lone_empty_hostless (snd (remove_base domain_root src base)) = false.
+Proof. exact ShortenProofs.remove_base_no_lone_empty. Qed.
+Print Assumptions C11_remove_base_no_lone_empty.
+
+(* so the hypothesis of the reachable clause is two shapes ... *)
+Theorem C11_text_faithful_reachable_meaning : forall u,
+  text_faithful_reachable u = negb (rootless_leading_empty u) && negb (ip4_name u).
+Proof. reflexivity. Qed.
+
+Theorem C11_equal_iff_same_text_reachable_partial2 : forall ops ops' i j u v,
+  normalize_steps_ok norm_outside_findings empty_store ops -> run empty_store ops i = Some u ->
+  normalize_steps_ok norm_outside_findings empty_store ops' -> run empty_store ops' j = Some v ->
+  text_faithful_reachable u = true -> text_faithful_reachable v = true ->
+  (equals_uri (Some u) (Some v) = true <-> to_text u = to_text v).
+Proof. exact equal_iff_same_text_reachable_two. Qed.
+Print Assumptions C11_equal_iff_same_text_reachable_partial2.
+
+(* ... and exactly these two *)
+Theorem C11_reachable_faithful_exact : forall ops i u,
+  normalize_steps_ok norm_outside_findings empty_store ops -> run empty_store ops i = Some u ->
+  (text_faithful_reachable u = true <->
+   forall s v, parse s = POk v -> to_text v = to_text u -> equals_uri (Some u) (Some v) = true).
+Proof. exact reachable_faithful_exact. Qed.
+Print Assumptions C11_reachable_faithful_exact.
+
 (* ---- non-vacuity ------------------------------------------------------------------------------- *)
 Local Open Scope string_scope.
 Notation txt := ResolveProofs.txt.
@@ -177,8 +219,9 @@ Example C11_text_reachable_pair :
      end.
 Proof. vm_compute. repeat split; try reflexivity. intros H; discriminate H. Qed.
 
-(* ---- the three excluded shapes: objects the library model produces from parsed texts, satisfying
-        [produced_wf], with the text of a parsed object and not equal to it ---------------------- *)
+(* ---- the three excluded shapes: objects satisfying [produced_wf] with the text of a parsed object
+        and not equal to it.  The first and the third are produced by the library model from parsed
+        texts; the second is hand-built only, since the repair of uriRemoveBaseUri ---------------- *)
 
 (* D6: uriAddBaseUri("s:a", ".//b") -- rootless, segments "" and "b" -- against the parsed "s:/b" *)
 Example C11_text_rootless_leading_empty_refuted :
@@ -192,17 +235,32 @@ Example C11_text_rootless_leading_empty_refuted :
   /\ absolutePath u = false /\ pathSegs u = [[]; txt "b"] /\ absolutePath v = true /\ pathSegs v = [txt "b"].
 Proof. vm_compute. repeat split; reflexivity. Qed.
 
-(* uriRemoveBaseUri("s://h/", base "s://h/a", domainRootMode): absolute, one empty segment, text "/"
-   -- against the parsed "/" (absolute, no segment).  Same family as the repaired D6a/D6b. *)
-Example C11_text_lone_empty_refuted :
+(* REPAIRED.  uriRemoveBaseUri("s://h/", base "s://h/a", domainRootMode) produced: absolute, one empty
+   segment, text "/", unequal to the parsed "/" (absolute, no segment) -- the same family as the repaired
+   D6a/D6b.  uriRemoveBaseUriImpl now calls uriFixEmptyTrailSegment after copying the path: the
+   reference is the absolute path without segments and equals the parsed "/" *)
+Example C11_text_lone_empty_repaired :
   let u := snd (remove_base true (uri_of "s://h/") (uri_of "s://h/a")) in
   let v := uri_of "/" in
   fst (remove_base true (uri_of "s://h/") (uri_of "s://h/a")) = URI_SUCCESS
   /\ produced_wfb u = true /\ produced_wfb v = true
+  /\ rootless_leading_empty u = false /\ lone_empty_hostless u = false /\ ip4_name u = false
+  /\ text_faithful u = true /\ text_faithful v = true
+  /\ to_text u = txt "/" /\ to_text v = txt "/" /\ equals_uri (Some u) (Some v) = true
+  /\ absolutePath u = true /\ pathSegs u = [] /\ absolutePath v = true /\ pathSegs v = [].
+Proof. vm_compute. repeat split; reflexivity. Qed.
+
+(* the object the unrepaired code produced, hand-built (no operation of the model produces it any more:
+   C11_reachable_no_lone_empty): it satisfies [produced_wf], so [text_faithful] is still what the
+   [produced_wf] theorems need *)
+Example C11_text_lone_empty_refuted :
+  let u := mkUri None None None None None None None [[]] None None true false in
+  let v := uri_of "/" in
+  produced_wfb u = true /\ produced_wfb v = true
   /\ rootless_leading_empty u = false /\ lone_empty_hostless u = true /\ ip4_name u = false
   /\ text_faithful v = true
   /\ to_text u = txt "/" /\ to_text v = txt "/" /\ equals_uri (Some u) (Some v) = false
-  /\ absolutePath u = true /\ pathSegs u = [[]] /\ absolutePath v = true /\ pathSegs v = [].
+  /\ absolutePath v = true /\ pathSegs v = [].
 Proof. vm_compute. repeat split; reflexivity. Qed.
 
 (* the rootless variant, hand-built (no operation of the model produces it): one empty segment
@@ -226,15 +284,18 @@ Example C11_text_ip4_name_refuted :
   /\ hostText u = hostText v /\ ip4 u = None /\ ip4 v = Some [1; 2; 3; 4]%N.
 Proof. vm_compute. repeat split; reflexivity. Qed.
 
-(* ... and each of the three is reachable in the sense of C07_reachable_wf *)
+(* ... and the first and the third are reachable in the sense of C07_reachable_wf; the history that
+   reached the second shape now ends in a text-faithful object equal to the parsed "/" *)
 Example C11_text_refuted_reachable :
   let ops := [SParse 0 (txt ".//b"); SParse 1 (txt "s:a"); SAddBase 2 0 1 false;
               SParse 3 (txt "s://h/"); SParse 4 (txt "s://h/a"); SRemoveBase 5 3 4 true;
-              SParse 6 (txt "//%31.2.3.4"); SNormalize 6 63%N] in
+              SParse 6 (txt "//%31.2.3.4"); SNormalize 6 63%N; SParse 7 (txt "/")] in
   normalize_steps_ok norm_outside_findings empty_store ops
-  /\ match run empty_store ops 2%nat, run empty_store ops 5%nat, run empty_store ops 6%nat with
-     | Some a, Some b, Some c =>
-       rootless_leading_empty a = true /\ lone_empty_hostless b = true /\ ip4_name c = true
-     | _, _, _ => False
+  /\ match run empty_store ops 2%nat, run empty_store ops 5%nat, run empty_store ops 6%nat, run empty_store ops 7%nat with
+     | Some a, Some b, Some c, Some d =>
+       rootless_leading_empty a = true /\ ip4_name c = true
+       /\ lone_empty_hostless b = false /\ text_faithful b = true
+       /\ to_text b = to_text d /\ equals_uri (Some b) (Some d) = true
+     | _, _, _, _ => False
      end.
 Proof. vm_compute. repeat split; reflexivity. Qed.
